@@ -384,6 +384,12 @@ def check_returned_arguments(ctx, F, tag, rule="C09.R7.returned-argument-bounded
 
 
 def check_config_tail(ctx, F, tag):
+    # (borrowed) "a position past the end is treated as the end": predecessor never answers an argument at or past the end with
+    # the exhausted iterator (C10.R14)
+    from core import Relabel
+    if not isinstance(ctx, Relabel):
+        import c10
+        c10.check_predecessor_accepts_large_arguments(ctx, F, tag, rule="C09.R9.predecessor-never-refuses-a-large-argument")
     check_select_clamps(ctx, F, tag)
     check_returned_arguments(ctx, F, tag)
     # a multiset can hold more values than its universe has positions: the provided `count_zeros() = len - count_ones` underflows
